@@ -181,6 +181,26 @@ def ensure_driver():
         raise FactError('driver not built: run MANIFEST.setup_cmd (./setup.sh) first; missing ' + DRIVER)
 
 
+def normalize_paths(raw):
+    """Public types are known to users (and to the rules) by the name they are exported under at the crate root.
+    If such a type is *defined* in a private module (e.g. `ps2::Ps2Decoder` re-exported as `Ps2Decoder`), rewrite its
+    definition path to the exported name throughout the fact document, so that moving a type between private
+    modules is invisible to the rules."""
+    try:
+        doc = json.loads(raw)
+    except ValueError:
+        return raw
+    ren = {}
+    for e in doc.get('exports', []):
+        if e['kind'] in ('Struct', 'Enum', 'Trait') and '::' not in e['name'] and e['target'] != e['name'] and e.get('reexport'):
+            ren[e['target']] = e['name']
+    # longest first, and only whole path prefixes (followed by a non-identifier character)
+    import re
+    for tgt in sorted(ren, key=len, reverse=True):
+        raw = re.sub(r'(?<![A-Za-z0-9_:])' + re.escape(tgt) + r'(?![A-Za-z0-9_])', ren[tgt], raw)
+    return raw
+
+
 def extract(flavour='dev', repo=None, keep_json=None, spec=None):
     """Compile `repo` with the dump driver; return the parsed fact document."""
     repo = repo or REPO
@@ -222,7 +242,9 @@ def extract(flavour='dev', repo=None, keep_json=None, spec=None):
         if not os.path.exists(out):
             raise FactError('driver produced no fact file (wrapper skipped?)\n' + p.stderr[-2000:])
         with open(out) as f:
-            doc = json.load(f)
+            raw = f.read()
+        raw = normalize_paths(raw)
+        doc = json.loads(raw)
         if doc.get('crate') != 'pc_keyboard':
             raise FactError('fact file is for crate %r' % doc.get('crate'))
         # a build script can make what is compiled depend on the build environment in ways no rustc fact shows
@@ -232,7 +254,8 @@ def extract(flavour='dev', repo=None, keep_json=None, spec=None):
         doc['_flavour'] = flavour
         doc['_repo'] = repo
         if keep_json:
-            shutil.copy(out, keep_json)
+            with open(keep_json, 'w') as kf:
+                kf.write(raw)
         return doc
     finally:
         shutil.rmtree(tmp, ignore_errors=True)
